@@ -63,7 +63,7 @@ impl Pools {
             kinds: vec![1, 1, 7, 0, 3, 10002, 30023, 30024, 1059, 20001, 5],
             times: vec![0, 1, 100, 101, 102, 103, 200, 255, 256, 65535, 65536, (1 << 32) - 1, 1 << 32, (1 << 32) + 1],
             dvals: vec!["".into(), "x".into(), "y".into(), "x:y".into(), "x\u{0}".into(), long_d(182, "a"), long_d(183, "ab"), long_d(183, "ac")],
-            tvals: vec!["".into(), "a".into(), "b".into(), "ab".into(), "a\u{0}".into(), long_d(182, "p"), long_d(190, "q1"), long_d(190, "q2"), "nostr".into()],
+            tvals: vec!["".into(), "a".into(), "b".into(), "ab".into(), "A".into(), "a966a0c7a966a0c7a966a0c7a966a0c7a966a0c7a966a0c7a966a0c7a966a0c7".into(), "A966A0C7A966A0C7A966A0C7A966A0C7A966A0C7A966A0C7A966A0C7A966A0C7".into(), "a\u{0}".into(), long_d(182, "p"), long_d(190, "q1"), long_d(190, "q2"), "nostr".into()],
             letters: vec!["t", "e", "p", "q", "T", "r"],
             content_lens: vec![0, 1, 7, 8, 9, 30, 100],
             max_extra_tags: 4,
@@ -100,6 +100,9 @@ pub fn gen_event(rng: &mut Rng, p: &Pools, eng: &Eng, kind: Option<u16>) -> SemE
                 tags.push(vec!["d".into(), rng.pick(&p.dvals).clone()]);
             }
             2 => tags.push(vec!["d".into(), d, "extra".into()]),
+            // no d tag at all / a d tag without a value: such an event has no address (it is not at the d="" address)
+            3 => {}
+            4 => tags.push(vec!["d".into()]),
             _ => tags.push(vec!["d".into(), d]),
         }
     }
